@@ -395,6 +395,17 @@ func (rs *ResourceSubscription) processGetResponse(payload []byte, err error) (n
 			delete(rs.e.queries, rs.query)
 		}
 		nrs.links = append(nrs.links, rs.query)
+		// Queries already linked to the replaced resource subscription
+		// follow it to the normalized one.
+		for _, q := range rs.links {
+			if q == "" {
+				rs.e.base = nrs
+			} else {
+				rs.e.links[q] = nrs
+			}
+			nrs.links = append(nrs.links, q)
+		}
+		rs.links = nil
 
 		// Copy over all subscribers
 		for sub := range rs.subs {
